@@ -18,7 +18,7 @@ ENVS = [dict(a=7, b=3, c=2, d=5), dict(a=1, b=0, c=1, d=2), dict(a=2, b=5, c=3, 
 
 SEPS = [" ", "", "\n", "\t", "  \n\t ", None]   # None = random per gap
 
-CONTEXTS = ["ret", "asg", "decl", "cond", "arg"]
+CONTEXTS = ["ret", "asg", "decl", "cond", "arg", "c+", "c-", "c*", "c/"]
 
 
 def render_expr(toks, layout, rnd):
@@ -37,6 +37,8 @@ def program(ctxname, expr):
         return head + "  return " + expr + ";\n}\n"
     if ctxname == "asg":
         return head + "  int r = 0;\n  r = " + expr + ";\n  return r;\n}\n"
+    if ctxname[0] == "c" and len(ctxname) == 2:
+        return head + "  int r = 100;\n  r " + ctxname[1] + "= " + expr + ";\n  return r;\n}\n"
     if ctxname == "decl":
         return head + "  int r = " + expr + ";\n  return r;\n}\n"
     if ctxname == "cond":
@@ -53,7 +55,7 @@ def find_expr(module, ctxname):
     stmts = f.GetBody().GetStatements()
     if ctxname == "ret":
         return stmts[0].GetExpression()
-    if ctxname == "asg":
+    if ctxname == "asg" or (ctxname[0] == "c" and len(ctxname) == 2):
         return stmts[1].GetExpression().GetRight()
     if ctxname == "decl":
         return stmts[0].GetDeclarations()[0].GetInitializerExpression()
@@ -88,9 +90,63 @@ def show(t):
     return "<" + t["k"] + ">"
 
 
+def one(p, rec, exp_tree, ctxname, layout, rnd, run_vm, limit, out):
+    expr = render_expr(rec["toks"], layout, rnd)
+    src = program(ctxname, expr)
+    case = {"ops": rec["ops"], "span": rec["span"], "ctx": ctxname, "layout": layout, "source": src}
+    mark = len(out)
+    try:
+        with time_limit(limit):
+            try:
+                with quiet():
+                    mod = p.Parse(src)
+                got = project(find_expr(mod, ctxname))
+            except SystemExit:
+                out.append(("reject", "parser refused the program", case))
+                return
+            if got != exp_tree:
+                case["expected_tree"] = show(exp_tree)
+                case["parsed_tree"] = show(got)
+                out.append(("tree-shape", f"`{' '.join(rec['toks'])}` parsed as {show(got)}, language says {show(exp_tree)}", case))
+            out.append(("parsed", None, None))
+            if not run_vm:
+                return
+            st, r = common.compile_source(src)
+            if st != "ok":
+                out.append(("reject", f"compiler refused the program ({r})", case))
+                return
+            vm = common.link_vm(r)
+            for env, ev0, cv in zip(ENVS, rec["vals"], rec["cvals"]):
+                ev = cv[ctxname[1]] if (ctxname[0] == "c" and len(ctxname) == 2) else ev0
+                if ev["t"] != "int":
+                    continue            # division by zero etc.: outside the stated domain
+                want = ev["v"]
+                if ctxname == "cond":
+                    want = 1 if want != 0 else 0
+                try:
+                    with quiet():
+                        gotv = vm.Invoke("f", **env)
+                except CaseTimeout:
+                    raise
+                except BaseException as e:  # noqa
+                    out.append(("vm-error", f"VM failed with {type(e).__name__} on a well-defined expression", dict(case, env=env)))
+                    break
+                if not (isinstance(gotv, (int, float)) and gotv == want):
+                    out.append(("value", f"`{' '.join(rec['toks'])}` with {env} = {gotv!r}, language says {want}", dict(case, env=env, got=repr(gotv), want=want)))
+                    break
+            out.append(("ran", None, None))
+    except CaseTimeout:
+        del out[mark:]
+        if limit < 100:
+            # a straight-line program cannot loop: assume machine load and retry once with a generous limit
+            one(p, rec, exp_tree, ctxname, layout, rnd, run_vm, 300, out)
+        else:
+            out.append(("timeout", "case did not finish in 300 s", case))
+
+
 def work(job):
     """One TLC case x contexts x layouts on the real code."""
-    rec, layouts, seed = job
+    rec, layouts, seed, vm_plan = job
     from nsl import parser
     rnd = random.Random(seed)
     exp_tree = strip(rec["tree"])
@@ -98,48 +154,7 @@ def work(job):
     p = parser.NslParser()
     for ctxname in CONTEXTS:
         for layout in layouts:
-            expr = render_expr(rec["toks"], layout, rnd)
-            src = program(ctxname, expr)
-            case = {"ops": rec["ops"], "span": rec["span"], "ctx": ctxname, "layout": layout, "source": src}
-            try:
-                with time_limit(10):
-                    try:
-                        with quiet():
-                            mod = p.Parse(src)
-                        got = project(find_expr(mod, ctxname))
-                    except SystemExit:
-                        out.append(("reject", "parser refused the program", case))
-                        continue
-                    if got != exp_tree:
-                        case["expected_tree"] = show(exp_tree)
-                        case["parsed_tree"] = show(got)
-                        out.append(("tree-shape", f"`{' '.join(rec['toks'])}` parsed as {show(got)}, language says {show(exp_tree)}", case))
-                    # end to end: compile and run (layout 0 and the current layout)
-                    st, r = common.compile_source(src)
-                    if st != "ok":
-                        out.append(("reject", f"compiler refused the program ({r})", case))
-                        continue
-                    vm = common.link_vm(r)
-                    for env, ev in zip(ENVS, rec["vals"]):
-                        if ev["t"] != "int":
-                            continue            # division by zero etc.: outside the stated domain
-                        want = ev["v"]
-                        if ctxname == "cond":
-                            want = 1 if want != 0 else 0
-                        try:
-                            with quiet():
-                                gotv = vm.Invoke("f", **env)
-                        except CaseTimeout:
-                            raise
-                        except BaseException as e:  # noqa
-                            out.append(("vm-error", f"VM failed with {type(e).__name__} on a well-defined expression", dict(case, env=env)))
-                            break
-                        if not (isinstance(gotv, (int, float)) and gotv == want):
-                            out.append(("value", f"`{' '.join(rec['toks'])}` with {env} = {gotv!r}, language says {want}", dict(case, env=env, got=repr(gotv), want=want)))
-                            break
-                    out.append(("ran", None, None))
-            except CaseTimeout:
-                out.append(("timeout", "case did not finish in 10 s", case))
+            one(p, rec, exp_tree, ctxname, layout, rnd, vm_plan is None or (ctxname, layout) in vm_plan, 20, out)
     return out
 
 
@@ -160,7 +175,12 @@ def run(ctx, args):
             layouts = [0, rnd.choice([1, 2, 3, 4, 5])]
         else:
             layouts = [0, 1, 2, 3, 4, 5]
-        jobs.append((r, layouts, ctx.seed * 1000003 + i))
+        # quick: every context x layout is parsed (tree comparison); pairs are all compiled and run, a triple is
+        # compiled and run in the plain `return` context plus two seeded (context, layout) choices
+        plan = None
+        if quick and len(r["ops"]) == 3:
+            plan = {("ret", 0)} | {(rnd.choice(CONTEXTS), rnd.choice(layouts)) for _ in range(2)}
+        jobs.append((r, layouts, ctx.seed * 1000003 + i, plan))
     with mp.Pool(16) as pool:
         results = pool.map(work, jobs, chunksize=64)
     evals = 0
@@ -170,16 +190,17 @@ def run(ctx, args):
             if kind == "ran":
                 ran += 1
                 continue
-            evals += 1
+            if kind == "parsed":
+                evals += 1
+                continue
             ctx.violation(kind, what, case)
-    evals = sum(len(j[1]) * len(CONTEXTS) for j in jobs)
     # non-trivial: the case has two different precedence levels or a parenthesis group
     nontrivial = sum(1 for r in recs if r["span"] != [0, 0] or len({lvl(o) for o in r["ops"]}) > 1)
     samples = [{"tokens": " ".join(r["toks"]), "tree": show(strip(r["tree"])), "values": r["vals"]} for r in recs[:3]]
     return common.finish(
         ctx, level="model_checking", evaluations=evals, distinct_nontrivial=nontrivial,
         rule="TLC enumerates all 169 ordered pairs x 4 and 2197 triples x 7 parenthesis variants of the 13 binary "
-             "operators; each is rendered in 5 contexts (return, assignment rhs, initializer, if condition, call argument) "
+             "operators; each is rendered in 9 contexts (return, assignment rhs, the four compound assignments, initializer, if condition, call argument) "
              f"x {'2' if quick else '6'} layouts and compared (tree via parser getters, value via the VM on 6 operand "
              "assignments). Non-trivial = mixes two precedence levels or has a parenthesis group.",
         samples=samples, exhaustive=True, traces_validated=ran,
